@@ -384,7 +384,7 @@ class Ctx:
             call = Call(func, point, args, kwargs)
             ctx.hit(point)
             arg_digests = None
-            if immutable_args:
+            if immutable_args and (immutable_args is True or ctx.hits[point] % int(immutable_args) == 0):  # int n: sample every n-th call
                 try:
                     arg_digests = [(i, a, digest(a)) for i, a in ctx._array_args(args, kwargs)]
                 except Exception:
